@@ -318,7 +318,7 @@ func (r *Run) flush(failed bool, why string) {
 		"classes": r.classes, "nontrivial_keys": keys, "nontrivial_count": len(r.nontrivial),
 		"samples": r.samples, "excluded": r.excluded, "known": r.known, "notes": r.notes,
 		"failed": failed, "why": why, "wall_s": time.Since(r.start).Seconds(),
-		"missing_required": missing, "shard": sh, "shards": shs,
+		"missing_required": missing, "required": r.requireList, "shard": sh, "shards": shs,
 	}
 	b, _ := json.Marshal(doc)
 	f, err := os.OpenFile(p, os.O_CREATE|os.O_APPEND|os.O_WRONLY, 0o644)
